@@ -280,6 +280,23 @@ void gen_corrupt(Plan& p, Rng& r)
     }
 }
 
+void gen_detect(Plan& p, Rng& r)
+{
+    // C13: version triple / variant marker / layout rewritten between close and reload
+    p.cfg.on_disk = true;
+    p.cfg.checks = CK_RELOAD;
+    p.cfg.table_api = false;
+    if (r.chance(1, 3))
+        p.cfg.schema = 9 + (int)r.below(2);  // both 1.18.0 variants get extra weight
+    if (r.chance(1, 2))
+        p.steps.push_back(mk("create_track", r, 0, 0));
+    if (r.chance(1, 2))
+        p.steps.push_back(mk("create_root", r, 0, 1));
+    int n = 3 + (int)r.below(8);
+    for (int i = 0; i < n; ++i)
+        p.steps.push_back(mk("x_version", r, 4, 1));
+}
+
 void gen_hostile(Plan& p, Rng& r)
 {
     // C15: ordinary operations mixed with hostile ones; values come from the
@@ -417,6 +434,8 @@ Plan generate_plan(const std::string& profile_in, uint64_t seed, uint64_t index)
         gen_foreign(p, r);
     else if (profile == "corrupt")
         gen_corrupt(p, r);
+    else if (profile == "detect")
+        gen_detect(p, r);
     else if (profile == "hostile")
         gen_hostile(p, r);
     else
